@@ -180,17 +180,23 @@ def build(chk: Check) -> None:
             spec = z3.RealVal(1)
             for i in range(k):
                 spec = spec * z3.If(flipped[i], etas[i], z3.RealVal(1))
-            clauses, no_raise = [], []
+            clauses, no_raise, opaque = [], [], []
             for oc in outs:
                 pc = z3.And(*oc.st.pc) if oc.st.pc else z3.BoolVal(True)
                 if oc.kind == "raise":
                     no_raise.append(z3.Not(pc))
                     continue
                 v = oc.value
+                if (isinstance(v, SV) and v.sort not in {"int", "real"}) or not (v is None or isinstance(v, (SV, int, float))):
+                    opaque.append(str(v)[:120])  # a value the executor could not interpret (an abstraction): outside the subset, not a wrong result
+                    continue
                 vt = z3.RealVal(1) if v is None else (v.t if isinstance(v, SV) else z3.RealVal(str(v)))
                 if isinstance(v, SV) and v.sort == "int":
                     vt = z3.ToReal(vt)
                 clauses.append(z3.Implies(pc, vt == spec))
+            if opaque:
+                chk.struct(f"prefactor[{tag}].in_supported_subset", False, F, witness=f"opaque result(s): {opaque[:3]}", lemma=True, replay=search)
+                continue
             # internal obligations (dict[key] needs key in dict, ...) named by WHAT they demand, not by the function they arise in: the same
             # demand raised inside an extracted helper is the same obligation
             by_kind: dict[str, list] = {}
